@@ -112,6 +112,27 @@ def r13_8(ctx: Ctx) -> None:
                       "a duplicated member name is rewritten to `<name>_<n>` but folders may still be extracted in parallel: members `a`, `a`, `a_0` in three folders make two "
                       "workers write `<out>/a_0`, and which content survives depends on the schedule (sequential extraction keeps the real `a_0`)",
                       construct="parallel with renamed duplicates")
+    # the gate is computed when the flags are final: no flag it depends on is set behind the assignment of `parallel`
+    pdefs = [n for n in walk(f.node) if isinstance(n, ast.Assign) and any(isinstance(t_, ast.Name) and t_.id == "parallel" for t_ in n.targets)]
+    fcfg = cfg_of(f.node)
+    for pd in pdefs:
+        used = {x.id for x in ast.walk(pd.value) if isinstance(x, ast.Name)}
+        late = [n for n in walk(f.node) if isinstance(n, ast.Assign) and isinstance(n.value, ast.Constant) and n.value.value is True and isinstance(n.targets[0], ast.Name)
+                and n.targets[0].id in used and fcfg.reaches(q.node_for(f, pd), q.node_for(f, n))]
+        ctx.check(not late, "R13.8", f, pd, "the parallel gate is computed after the flags it depends on are final",
+                  (f"`{norm(late[0])}` " if late else "") + "can be executed after `parallel = ...` has been computed: the flag is still False when the gate reads it, members that end up at one path "
+                  "('a', 'a', 'a_0' in three folders) are written concurrently and the schedule decides which content remains", construct="parallel gate computed before its flags")
+    # a task touches the decoders of its OWN folders only: extract_single releases `.decompressor` in loops over folders derived from its `files`
+    # argument - resetting every folder of the header from one task pulls the decoder from under another task between two of its members
+    es_ = ctx.prog.func("py7zr", "Worker.extract_single")
+    for n in [n for n in walk(es_.node) if isinstance(n, ast.Assign) and any(isinstance(t_, ast.Attribute) and t_.attr == "decompressor" for t_ in n.targets)]:
+        lps = q.enclosing_loops(es_, n)
+        own = bool(lps) and all(any(isinstance(x, ast.Name) and x.id == es_.params[2] for x in ast.walk(lp_.iter)) and not any(
+            isinstance(x, ast.Attribute) and x.attr in ("header", "main_streams", "unpackinfo") for x in ast.walk(lp_.iter)) for lp_ in lps[-1:])
+        ctx.check(own, "R13.8", es_, n, "a folder task releases the decoders of its own folders only",
+                  f"`{norm(n)}` in Worker.extract_single reaches folders that other tasks are working on (the loop runs over the header's folders, not over the task's `{es_.params[2]}`): a task that "
+                  "fails resets the decoder of an intact folder between two of its members - that task dies with TypeError, its member is missing, and its spurious error may be the one raised",
+                  construct="task resets other tasks' decoders")
     # (c) two DIFFERENT names can lead to one output path ('a' and 'x/../a', 'a' and './a'): every output path goes into a set, and a path
     # that is already in it sets a flag `parallel` depends on
     adds = [c for c in q.calls(f) if attr_tail(c) == "add" and isinstance(c.func.value, ast.Name) and c.args and isinstance(c.args[0], ast.Name)]
